@@ -11,8 +11,8 @@ CHECKS = {
    cat="proof",
    text="Lean block-sparse tensor model (M3-M5): every operation is defined on blocks as index functions; theorems state that toDense commutes with the "
         "algebra: element-wise ops, conj, flip_signature, add/sub, transpose, block access, and toDense_tensordot: tensordot over ANY contracted axes (any number, positions, order) equals the dense contraction over "
-        "common leg spaces, for all ranks, sector contents and any commutative ring (toDense_matmul is the matrix-product instance), vdot_eq_dense (vdot = dense inner product), toDense_trace (partial trace over any axis pairs = dense partial trace) toDense_broadcast (diagonal operand), toDense_addLeg (= expand_dims), toDense_removeLeg (= squeeze) and toDense_applyMask (= numpy.take along the masked leg; + wf_applyMask); "
-        "ncon/einsum/diag are covered by correspondence + NumPy oracles only; operands held lazily / with fused legs by exact view relations (harness/views.py). "
+        "common leg spaces, for all ranks, sector contents and any commutative ring (toDense_matmul is the matrix-product instance), vdot_eq_dense (vdot = dense inner product), toDense_trace (partial trace over any axis pairs = dense partial trace) toDense_broadcast (diagonal operand), toDense_addLeg (= expand_dims), toDense_removeLeg (= squeeze) toDense_applyMask (= numpy.take along the masked leg; + wf_applyMask) and toDense_diag (+ wf_diag); "
+        "ncon/einsum are covered by correspondence + NumPy oracles only; operands held lazily / with fused legs by exact view relations (harness/views.py). "
         "Tie: random type-directed programs executed on the real code; after EVERY step the real observables (signature, charge, block keys/shapes/values via "
         "public block access) are compared exactly (integer data) with the compiled Lean model and with NumPy on dense operands; block access/to_numpy/"
         "to_nonsymmetric/get_legs/`in` consistency oracle.",
